@@ -91,7 +91,9 @@ def run(repo, chk):
                f"{form}: the collector accepts the name but no template of {hname} reports it ({'no such handler' if not paths else 'no interaction on ' + ident})")
     # dotted import: the name Python binds is the first component
     imp = [p for p in H.get("visit_Import", []) if not isinstance(p.template, Raise)]
-    dotted_dropped = any(isinstance(x, Star) and any(not items and any(k.startswith("contains|") for k, v in dec) and any(k.startswith("present|") and k.endswith(".asname") and not v for k, v in dec) for dec, items in x.alts) and "names[*]" in x.over
+    # the rewriter must not make the report depend on whether the imported *module path* contains a dot
+    dotted_dropped = any(isinstance(x, Star) and "names[*]" in x.over and
+                         any(k.startswith("contains|") and ".name)" in k and ".asname" not in k for dec, items in x.alts for k, v in dec)
                          for p in imp for x in walk(p.template))
     chk.ob("R02.1", "import (dotted):first-component", not dotted_dropped or not col.verdict(rows["import-dotted"])["recorded"], "ptera/transform.py (visit_ImportFrom)",
            "`import os.path` binds `os`: the collector accepts `os` but the rewriter skips every alias containing a dot, so the binding is never reported")
